@@ -90,7 +90,7 @@ func (cm *connManager) handleNewConn(regManager *cj.RegistrationManager, clientC
 
 	fd, err := clientConn.File()
 	if err != nil {
-		logger.Errorln("failed to get file descriptor on clientConn:", err)
+		logger.Errorln("failed to get file descriptor on clientConn:", generalizeErr(err))
 		return
 	}
 
